@@ -32,7 +32,7 @@ def kinds_set(kinds):
 
 def cfg(maxbox, maxcorrupt, kinds, optmode="default", maxfile=2, emit=True, **over):
     c = dict(NF=NF, MaxBox=maxbox, MaxFile=maxfile, MaxCorrupt=maxcorrupt, Kinds=kinds_set(kinds),
-             CheckFirstHeader="TRUE", SortOffsets="TRUE", EOFRule="TRUE",
+             CheckFirstHeader="TRUE", SortOffsets="TRUE", EOFRule="TRUE", ExactNext="TRUE",
              OptMode='"%s"' % optmode, DataCheckBroken="TRUE")
     c.update(over)
     inv = list(INVS) if emit else INVS[:-1]
